@@ -53,6 +53,8 @@ LOX_FAULTS = {
     "twofiles-same-lexeme": ("ParseLox", lambda: {"g.lox": GOOD_LOX, "h.lox": "@lexer\nNUM2 = [0-9]+\n"}),
     "twofiles-dup-name": ("ParseLox", lambda: {"g.lox": GOOD_LOX, "h.lox": "@lexer\nNUM = 'n'\n"}),
     "twofiles-ok": (None, lambda: {"g.lox": GOOD_LOX, "h.lox": "@lexer\nEXTRA = 'x'\n"}),
+    "empty-literal-parser-term": ("ParseLox", lambda: {"g.lox": GOOD_LOX.replace("| NUM", "| '' NUM", 1)}),
+    "empty-literal-list-sep": ("ParseLox", lambda: {"g.lox": GOOD_LOX.replace("| NUM", "| @list(NUM, '')", 1)}),
     "empty-lox": ("", lambda: {"g.lox": ""}),
     "lexer-only": ("", lambda: {"g.lox": "@lexer\nA = 'a'\n"}),
 }
